@@ -39,53 +39,11 @@ def group(grouped, kind, key, detail):
         g["examples"].append(detail)
 
 
-def main():
-    ck = Check("C14")
-    tier = ck.tier
-    ck.rule = (
-        "TLC enumerates every stored trace of each (kind, ploidies, alleles, chains, steps) instance "
-        "(haplotype traces: every within-genotype storage order), every burn-in 0..S-1 and every increasing "
-        "relabelling, computes the summary from the empirical distribution over bags and checks the invariants; "
-        "every such state is replayed into the real classes. Non-trivial = the retained trace holds more than one "
-        "distinct genotype (other features are counted separately in `state_features`)."
-    )
-    # ---- 1. model checking ----------------------------------------------------------
-    try:
-        r = tlc.run(SPEC, "TraceSummary", "MC_%s.cfg" % tier, timeout=2400)
-        ck.add_tlc(r, "TraceSummary")
-        if r.violated:
-            ck.violation("model", {"invariant": r.violated, "text": r.error_text[:1500]}, key={"model": "TraceSummary"})
-        killed = 0
-        for cfg, want in (("Mutant_burn.cfg", "BurnExact"), ("Mutant_canon.cfg", "ShuffleKeepsSummary"),
-                          ("Mutant_support.cfg", "SupportGrouping"), ("Mutant_occ.cfg", "OccBounds")):
-            if not os.path.exists(os.path.join(SPEC, cfg)):
-                continue
-            m = tlc.run(SPEC, "TraceSummary", cfg)
-            if not m.violated or want not in m.violated:
-                ck.machinery_failure("mutant spec %s not killed (violated=%s)" % (cfg, m.violated))
-            killed += 1
-        ck.note("mutant_specs_killed", killed)
-    except tlc.TLCError as e:
-        ck.machinery_failure(str(e))
-
-    seen = set()
-    states = []
-    for s in r.printed:
-        k = state_key(s)
-        if k not in seen:
-            seen.add(k)
-            states.append(s)
-    ck.note("done_states_replayed", len(states))
-    if not states:
-        ck.machinery_failure("TLC printed no states")
-
-    # ---- 2. spec -> code: every done state, compiled and interpreted ---------------------
+def replay(ck, states, grouped, feats, behaviours, modes):
+    """spec -> code: every done state into the real classes (compiled and interpreted)"""
     chunk = 250
     chunks = [states[i: i + chunk] for i in range(0, len(states), chunk)]
-    feats = {}
-    behaviours = set()
-    grouped = {}
-    for mode in ("jit", "py"):
+    for mode in modes:
         res = pool.map_tasks("impl.c14", [{"op": "states", "states": c, "mode": mode} for c in chunks], mode=mode)
         for c, rr in zip(chunks, res):
             if not rr["ok"]:
@@ -105,16 +63,69 @@ def main():
                 group(grouped, "summary-mismatch", violation_key(bd), {"mode": mode, **bd})
             if o.get("bad_overflow"):
                 ck.bump("mismatches_not_listed", o["bad_overflow"])
-        for s in states:
-            behaviours.add((s["kind"], tuple(s["ps"]), s["k"], s["c"], s["s"]))
+    for s in states:
+        behaviours.add((s["kind"], tuple(s["ps"]), s["k"], s["c"], s["s"]))
+
+
+def main():
+    ck = Check("C14")
+    tier = ck.tier
+    ck.rule = (
+        "TLC enumerates every stored trace of each (kind, ploidies, alleles, chains, steps) instance "
+        "(haplotype traces: every within-genotype storage order), every burn-in 0..S-1 and every increasing "
+        "relabelling, computes the summary from the empirical distribution over bags and checks the invariants; "
+        "every such state is replayed into the real classes. Non-trivial = the retained trace holds more than one "
+        "distinct genotype (other features are counted separately in `state_features`)."
+    )
+    # ---- 1. mutant specifications (binding demonstration) --------------------------------
+    try:
+        killed = 0
+        for cfg, want in (("Mutant_burn.cfg", "BurnExact"), ("Mutant_canon.cfg", "ShuffleKeepsSummary"),
+                          ("Mutant_support.cfg", "SupportGrouping"), ("Mutant_occ.cfg", "OccBounds"),
+                          ("Mutant_inc.cfg", "SameSupportNoIncongruence")):
+            m = tlc.run(SPEC, "TraceSummary", cfg)
+            if not m.violated or want not in m.violated:
+                ck.machinery_failure("mutant spec %s not killed (violated=%s)" % (cfg, m.violated))
+            killed += 1
+        ck.note("mutant_specs_killed", killed)
+    except tlc.TLCError as e:
+        ck.machinery_failure(str(e))
+
+    # ---- 2. model checking + spec -> code, one part of the grid after the other -----------
+    parts = ["MC_quick.cfg"] if tier == "quick" else ["MC_thorough.cfg", "MC_thorough_b.cfg", "MC_thorough_c.cfg",
+                                                       "MC_thorough_d.cfg"]
+    grouped, feats, behaviours = {}, {}, set()
+    n_states = 0
+    for cfg in parts:
+        try:
+            r = tlc.run(SPEC, "TraceSummary", cfg, timeout=2400)
+        except tlc.TLCError as e:
+            ck.machinery_failure(str(e))
+        ck.add_tlc(r, "TraceSummary:" + cfg)
+        if r.violated:
+            ck.violation("model", {"cfg": cfg, "invariant": r.violated, "text": r.error_text[:1500]},
+                         key={"model": "TraceSummary"})
+        seen = set()
+        states = []
+        for s in r.printed:
+            k = state_key(s)
+            if k not in seen:
+                seen.add(k)
+                states.append(s)
+        del r
+        if not states:
+            ck.machinery_failure("TLC printed no states for %s" % cfg)
+        n_states += len(states)
+        replay(ck, states, grouped, feats, behaviours, modes=("jit", "py"))
+        ck.sample({"kind": "model-state", "state": states[len(states) // 3]})
+        del states
+    ck.note("done_states_replayed", n_states)
     # one violation per distinct key (call site + feature), with the number of cases and three examples
     for (kind, _), g in sorted(grouped.items()):
         ck.violation(kind, {"n_cases": g["n"], "examples": g["examples"]}, key=g["key"])
-    ck.traces += len(states)  # one replayed behaviour (Record^(C*S); Burn) per done state
+    ck.traces += n_states  # one replayed behaviour (Record^(C*S); Burn) per done state
     ck.note("instances", len(behaviours))
     ck.note("state_features", feats)
-    ck.sample({"kind": "model-state", "state": states[len(states) // 3]})
-    ck.sample({"kind": "model-state", "state": states[(2 * len(states)) // 3]})
 
     # ---- 3. code -> spec: real program runs validated by TraceTraceSummary ---------------
     trace_part(ck)
